@@ -2,6 +2,8 @@ package main
 
 import (
 	"fmt"
+	"strings"
+	"unicode/utf8"
 
 	"github.com/hslam/rpc"
 	vs "verif/shim/vsync"
@@ -397,4 +399,90 @@ func init() {
 	register(&Scenario{Prop: "C08", Name: "c08/client-frames", Quick: []Bound{{0, 0}}, Thorough: []Bound{{0, 0}}, Body: c08Client(false), MinHB: 1})
 	register(&Scenario{Prop: "C08", Name: "c08/client-frames-all-values", Quick: []Bound{}, Thorough: []Bound{{0, 0}}, Body: c08Client(true), MinHB: 1, BudgetT: 200})
 	register(&Scenario{Prop: "C08", Name: "c08/burst-disconnect", Quick: []Bound{{1, 0}, {2, 0}}, Thorough: []Bound{{3, 0}}, Body: c08Burst(c08SrvModes, 3), BudgetQ: 40})
+}
+
+// method names as adversarial data: a peer may put any bytes where the method name goes.  Names
+// made of UTF-8 continuation bytes only, of a character cut at every offset around 64, empty,
+// without a dot, 300 bytes and 70 KB long, as a unary call and as a stream open, under every header
+// encoder: the caller gets an error, nothing panics, the connection serves the next call.
+var c08Names = []string{
+	strings.Repeat("\x80", 100), strings.Repeat("\xbf", 65) + ".x", strings.Repeat("a", 63) + "é", strings.Repeat("a", 62) + "世界", strings.Repeat("a", 61) + "\U0001F600.",
+	"", ".", "nodot", "Svc.", ".Echo", "Svc.Echo\x00", "Svc.echo", " Svc.Echo", strings.Repeat("S", 300) + ".Echo", strings.Repeat("Svc.Echo", 9000), "\xff\xfe.\xfd", strings.Repeat("\xe4\xb8", 40),
+}
+
+func c08NamesBody(x *X) {
+	enc := encNames[x.Choose(len(encNames))]
+	kind := x.Choose(2)
+	ni := x.Choose(len(c08Names))
+	name := c08Names[ni]
+	so := srvOpts{bufSize: 64, enc: enc}
+	if ni%2 == 1 {
+		so.pipelining = true
+	}
+	f := newFixture(so, cliOpts{bufSize: 64})
+	ret := false
+	var err error
+	vs.GoNamed("caller", func() {
+		if kind == 0 {
+			args := mkPayload(0x31, 0, 12)
+			var reply []byte
+			err = f.conn.Call(name, &args, &reply)
+		} else {
+			_, err = f.conn.NewStream(name)
+		}
+		ret = true
+	})
+	vs.Quiesce()
+	valid := utf8.ValidString(name)
+	switch {
+	case !ret && (enc != "json" || valid):
+		x.Fail("C08/unknown-method-hangs", "a %s for the method name %q (%d bytes, header encoder %q) did not return", []string{"call", "stream open"}[kind], clip(name), len(name), enc)
+	case ret && err == nil:
+		x.Fail("C08/unknown-method-succeeds", "a %s for the method name %q returned nil", []string{"call", "stream open"}[kind], clip(name))
+	}
+	after := newUcall(0x32, 0, 20, formCall)
+	after.spawn(f.conn)
+	vs.Quiesce()
+	if !after.ret || after.err != nil || !eqBytes(after.reply, after.want()) {
+		x.Fail("C08/connection-wedged/method-names", "after a %s for the method name %q (%d bytes, header encoder %q) a request on the same connection: returned=%v err=%v", []string{"call", "stream open"}[kind], clip(name), len(name), enc, after.ret, after.err)
+	}
+	x.Outcome("enc=%q kind=%d name=%d ret=%v err=%v", enc, kind, ni, ret, err != nil)
+	f.conn.Close()
+	vs.Quiesce()
+}
+
+// three live targets, some calls, one target goes away, some calls within the same detector
+// period, two detector periods, six more calls: no call panics or blocks.
+func c08Shrink(x *X) {
+	sched := []rpc.Scheduling{rpc.RoundRobinScheduling, rpc.LeastTimeScheduling}[x.Choose(2)]
+	form := []int{cfCall, cfGo, cfPing, cfRoundTrip}[x.Choose(4)]
+	k := x.Choose(5)
+	dying := []string{"a", "b", "c"}[x.Choose(3)]
+	h := x.Choose(3)
+	s := newCliSys(x, sched, "a", "b", "c")
+	s.rt.up["a"], s.rt.up["b"], s.rt.up["c"] = true, true, true
+	s.tick(2)
+	for i := 0; i < k; i++ {
+		clientCall(s.c, form)
+	}
+	s.rt.up[dying] = false
+	for i := 0; i < h; i++ {
+		clientCall(s.c, form)
+	}
+	s.tick(2)
+	n := 0
+	for i := 0; i < 6; i++ {
+		vs.GoNamed(fmt.Sprintf("caller%d", i), func() { clientCall(s.c, form); n++ })
+		vs.Quiesce()
+	}
+	if n != 6 {
+		x.Fail("C08/client-blocked-after-target-died", "one of three targets went away: %d of 6 later %s calls returned", n, cfNames[form])
+	}
+	x.Outcome("sched=%d form=%s k=%d dying=%s h=%d", sched, cfNames[form], k, dying, h)
+	s.close()
+}
+
+func init() {
+	register(&Scenario{Prop: "C08", Name: "c08/method-names-as-data", Quick: []Bound{{0, 0}}, Thorough: []Bound{{1, 0}}, Body: c08NamesBody, BudgetQ: 20, BudgetT: 100, MaxSteps: 400000, MinHB: 1})
+	register(&Scenario{Prop: "C08", Name: "c08/one-of-three-targets-dies", Quick: []Bound{{0, 0}}, Thorough: []Bound{{1, 0}}, Body: c08Shrink, BudgetQ: 20, BudgetT: 100, MaxSteps: 100000, MinHB: 1})
 }
